@@ -37,31 +37,48 @@ def run(ck, pid=PID, level="cache", props=PROPS):
     if ck.replay:
         return replay(ck, pid, level, props, ppath, trace_cfg)
 
+    probes = ["H3", "Alias", "ErrLeak", "Split"] if level == "cache" else ["Stale"]
+    # thorough: the probes are re-derived by TLC (shortest counterexample per deviation switch), in parallel
+    derived = {}
+    threads = []
+    if thorough:
+        import threading
+
+        def derive(name):
+            try:
+                derived[name] = su.derive_probe(ck, su.PROBE_CFG[name], name, timeout=1500)
+            except vkit.Infra as e:   # TLC died / timed out on the shared machine: recorded counterexample used
+                derived[name] = str(e)[:160]
+        for name in probes:
+            t = threading.Thread(target=derive, args=(name,), daemon=True)
+            t.start()
+            threads.append(t)
+
     # 1. model checking (background: overlapped with the harness, which mostly waits for 1 s ticks)
     if level == "cache":
         models = [su.BgModel(ck, "WriteCache", "WriteCache_c17fixed%s.cfg" % sfx, workers=4, timeout=2400),
                   su.BgModel(ck, "WriteCache", "WriteCache_c17asis%s.cfg" % sfx, workers=4, timeout=2400),
                   # where LiveK = 2 comes from: bounded drain of the repaired model
                   su.BgModel(ck, "WriteCacheLive", "WriteCacheLive.cfg", workers=2, timeout=2400)]
-        probes = ["H3", "Alias", "ErrLeak", "Split"]
     else:
         models = [su.BgModel(ck, "WriteCache", "WriteCache_c16asis%s.cfg" % sfx, workers=6, timeout=2400)]
-        probes = ["Stale"]
     ck.setcov("exhaustive", True)
 
     binp = ck.gobuild("shardb")
 
     # 2. scripts: probes (canned in quick, re-derived by TLC in thorough) + simulated behaviours
     scripts = []
+    for t in threads:
+        t.join()
     for name in probes:
-        if thorough:
-            try:
-                scripts.append(su.derive_probe(ck, su.PROBE_CFG[name], name, timeout=1500))
-                ck.add("probes_rederived_by_tlc")
-                continue
-            except vkit.Infra as e:   # TLC died / timed out on the shared machine: use the recorded counterexample
-                ck.notes.append("probe %s not re-derived (%s), canned counterexample used" % (name, str(e)[:120]))
-        scripts.append(su.probe(name))
+        d = derived.get(name)
+        if isinstance(d, dict):
+            scripts.append(d)
+            ck.add("probes_rederived_by_tlc")
+        else:
+            if thorough:
+                ck.notes.append("probe %s not re-derived (%s), recorded counterexample used" % (name, d))
+            scripts.append(su.probe(name))
     c = su.cfg_constants(gen_cfg)
     depth = int(c["GenLen"]) + 1
     for s in range(4 if thorough else 1):
